@@ -113,6 +113,11 @@ impl Iterator for FlopExhaustiveEvaluatorIterator {
             return None;
         }
 
+        // a player without any hand cannot be dealt in: nothing to enumerate
+        if self.player_entries.iter().any(|entries| entries.is_empty()) {
+            return None;
+        }
+
         let turn = self.current_deck[self.current_turn_index as usize];
         let river = self.current_deck[self.current_river_index as usize];
 
